@@ -1,0 +1,60 @@
+// Copyright 2024 The Mellium Contributors.
+// Use of this source code is governed by the BSD 2-clause
+// license that can be found in the LICENSE file.
+
+//go:build verif
+
+package xmpp
+
+import (
+	"context"
+	"encoding/xml"
+	"io"
+
+	"mellium.im/xmlstream"
+	"mellium.im/xmpp/internal/marshal"
+	intstream "mellium.im/xmpp/internal/stream"
+	"mellium.im/xmpp/internal/verifhook"
+	"mellium.im/xmpp/jid"
+	"mellium.im/xmpp/stream"
+)
+
+// VerifSetHook installs the schedule-forcing hook (verification builds only).
+func VerifSetHook(f func(point string)) { verifhook.Set(f) }
+
+// VerifPending reports the number of correlated requests awaiting a response.
+func (s *Session) VerifPending() int {
+	s.sentStanzaMutex.Lock()
+	defer s.sentStanzaMutex.Unlock()
+	return len(s.sentStanzas)
+}
+
+// VerifStreamSend exposes internal/stream.Send.
+func VerifStreamSend(rw io.ReadWriter, streamData *stream.Info, ws bool, version stream.Version, lang string, to, from, id string) error {
+	return intstream.Send(rw, streamData, ws, version, lang, to, from, id)
+}
+
+// VerifStreamExpect exposes internal/stream.Expect.
+func VerifStreamExpect(ctx context.Context, in *stream.Info, d xml.TokenReader, recv, ws bool) error {
+	return intstream.Expect(ctx, in, d, recv, ws)
+}
+
+// VerifStreamReader exposes internal/stream.Reader.
+func VerifStreamReader(r xml.TokenReader, ws bool) xml.TokenReader { return intstream.Reader(r, ws) }
+
+// VerifEncodeXML exposes internal/marshal.EncodeXML.
+func VerifEncodeXML(w xmlstream.TokenWriter, v interface{}) error { return marshal.EncodeXML(w, v) }
+
+// VerifEncodeXMLElement exposes internal/marshal.EncodeXMLElement.
+func VerifEncodeXMLElement(w xmlstream.TokenWriter, v interface{}, start xml.StartElement) error {
+	return marshal.EncodeXMLElement(w, v, start)
+}
+
+// VerifMarshalTokenReader exposes internal/marshal.TokenReader.
+func VerifMarshalTokenReader(v interface{}) (xml.TokenReader, error) { return marshal.TokenReader(v) }
+
+// VerifStanzaEncoder returns the stanza-completing token writer the session
+// installs on its output after negotiation.
+func VerifStanzaEncoder(w xmlstream.TokenWriteFlusher, ns string, from jid.JID) xmlstream.TokenWriteFlusher {
+	return &stanzaEncoder{TokenWriteFlusher: w, ns: ns, from: from}
+}
